@@ -1,5 +1,6 @@
 import SparkxVerif.Core.Proto
 import SparkxVerif.Core.QCumulant
+import SparkxVerif.Gen.QCumulant
 
 /-! driver ops for C11 (events separated by `|`, particles by `;`, particle = `re,im[,poi]`):
   `corr <k> <events>`             -> `ok <<<k>>>`
@@ -44,6 +45,14 @@ def handle : List String → String
     | some 2, some es => s!"ok {floatToHex (corr2 es)}"
     | some 4, some es => s!"ok {floatToHex (corr4 es)}"
     | some 6, some es => s!"ok {floatToHex (corr6 es)}"
+    | some _, some _ => "err value"
+    | _, _ => "bad-op"
+  | ["gcorr", k, evs] =>
+    -- the correlator as translated from the current source of `__calculate_corr`
+    match k.toNat?, events? evs with
+    | some 2, some es => s!"ok {floatToHex (Gen.QCumulant.corr2 es)}"
+    | some 4, some es => s!"ok {floatToHex (Gen.QCumulant.corr4 es)}"
+    | some 6, some es => s!"ok {floatToHex (Gen.QCumulant.corr6 es)}"
     | some _, some _ => "err value"
     | _, _ => "bad-op"
   | ["flow", k, im, evs] =>
